@@ -42,6 +42,9 @@ ASYMS = {
     "misleading_labels": (["C", "H", "N", "C"], ["CA1", "HO1", "NE1", "CD1"], [[0.1231, 0.3117, 0.2713], [0.5533, 0.0791, 0.6127], [0.8419, 0.7277, 0.0911], [0.3301, 0.9013, 0.4409]], None),
     # the smallest asymmetric unit: one atom (in P1 the whole cell then holds one atom - a one-row coordinate block in every format)
     "one_atom": (["Xe"], ["Xe1"], [[0.1231, 0.3117, 0.2713]], None),
+    # special values: coordinates that LOOK like rounded thirds / sixths / twelfths (0.3333, 0.6667, 0.1667, 0.8333, 0.0833) and exactly
+    # representable ones (0.5, 0.25, 0.125, 0.75): they are what they are, four decimals or not
+    "rounded_fractions": (["C", "O", "N", "S"], ["C1", "O1", "N1", "S1"], [[0.3333, 0.1234, 0.6667], [0.1667, 0.8333, 0.4121], [0.9131, 0.333333, 0.0833], [0.5, 0.25, 0.125]], None),
     "precise": (["C", "N"], ["C1", "N1"], [[0.123456789012, 0.987654321098, 0.555555555555], [1 / 3, 2 / 7, 0.1 + 1e-12]], None),
 }
 
@@ -67,7 +70,7 @@ def variants(row, tier):
     out = [d]
     axes = [
         [("oblique",), ("nonterm",), ("pseudo",), ("long_obtuse",), ("eq_ab",), ("eq_bc",), ("eq_ac",)],
-        [("two_letter",), ("twelve",), ("one_atom",), ("half_occ",), ("occ_values",), ("precise",), ("far",), ("misleading_labels",)],
+        [("two_letter",), ("twelve",), ("one_atom",), ("rounded_fractions",), ("half_occ",), ("occ_values",), ("precise",), ("far",), ("misleading_labels",)],
         [("from_cif",), ("from_res",), ("from_rich_cif",)],
         [("file",)],
         [(2,)],
